@@ -117,6 +117,8 @@ def parse_generic(parser, bname, elts, P):
         return ('key', elts[0].id)
     if bname == 'KeySeq' and len(elts) == 1 and isinstance(elts[0], ast.Name):
         return ('kseq', elts[0].id)
+    if bname == 'PairSeq' and len(elts) == 1 and isinstance(elts[0], ast.Name):   # zipseqs: tuple[tuple[str, K], ...]
+        return ('kseq', elts[0].id, 'pairs')
     if bname in ('dict', 'Dict', 'Mapping') and len(elts) == 2:
         from . import ufmaps   # ufmaps: key-valued maps, dict[K, set[K]]
         r = ufmaps.parse_generic(bname, elts, P)
@@ -166,6 +168,9 @@ def fresh(P, typ, name):
         af = z3.Function(name + '#at', z3.IntSort(), s)
         n = z3.Int(name + '#len')
         P.assume(n >= 0, fact=True)
+        if len(typ) > 2:   # zipseqs
+            from . import zipseqs
+            return zipseqs.SymPairSeq(lambda i: af(i), n, typ[1], name)
         return SymKeySeq(lambda i: af(i), n, typ[1], name)
     if k == 'relmap':   # ufmaps
         from . import ufmaps
@@ -358,7 +363,9 @@ def call_bound(P, name, recv, args, kwargs):
         c.name = None
         _register_fresh(P, c)
         return c
-    if name == 'symset.add' and len(args) == 1:
+    if name == 'symset.append' and type(recv).__name__ != 'SymBag':   # zipseqs: only the list abstraction has append
+        raise Unsupported('append on a symbolic set')
+    if name in ('symset.add', 'symset.append') and len(args) == 1:
         _mutate(P, recv)
         t = _kterm(recv, args[0])
         om = recv.member
@@ -507,7 +514,7 @@ def _forall(P, mk, wrap, fn, what):
 # -------------------------------------------------------------- loop rule
 
 def is_symbolic_iterable(v):
-    return isinstance(v, SYM) or type(v).__name__ == 'SymItems'   # absnodes: map.items()
+    return isinstance(v, SYM) or type(v).__name__ in ('SymItems', 'SymZip')   # absnodes: map.items(); zipseqs: zip(seq, seq)
 
 
 def _for_loops(fn_node):
@@ -692,6 +699,13 @@ def loop_rule(P, st, fr, it):
             raise Unsupported('loop rule: items() needs the target `k, v`')
         vname = targets[1].id
         targets = targets[:1]
+    from . import zipseqs   # zipseqs: `for x, y in zip(seq, seq)` / `for name, v in <pair sequence>`
+    multi = others = None
+    if isinstance(it, zipseqs.MULTI):
+        multi = it
+        first, others = zipseqs.split_targets(multi, targets)
+        targets = [first]
+        it = zipseqs.carrier(multi)
     if len(targets) != 1 or not isinstance(targets[0], ast.Name):
         raise Unsupported('loop rule: the loop target must be a single name')
     tname = targets[0].id
@@ -708,6 +722,10 @@ def loop_rule(P, st, fr, it):
     else:
         S = it
 
+    # zipseqs: contract attribute loop_types = {idx: {'local': 'type'}} declares locals that the body assigns and
+    # that are unbound before the loop; after >= 1 iterations they are bound (havoced, described by the invariant)
+    late_types = {n: t for n, t in ((getattr(c, 'loop_types', None) or {}).get(idx) or {}).items() if n not in fr.locals}
+
     def clauses(done):
         b = {k: v for k, v in fr.locals.items() if not k.startswith('#')}
         for k in list(b):
@@ -716,6 +734,9 @@ def loop_rule(P, st, fr, it):
         b.pop('done', None)
         names = [a.arg for a in inv.node.args.args]
         miss = [n for n in names if n not in ('done', 'old', 'self') and n not in b]
+        for n in [m for m in miss if m in late_types]:   # zipseqs: a local first assigned by the body is None
+            b[n] = None                                  # in the invariant while it is unbound
+            miss.remove(n)
         if miss:
             raise InterpError(f'{inv.qualname}: parameters {miss} are not locals in scope at the loop')
         return ex._call_spec(P, inv, b, {'done': done, 'old': getattr(P, 'old', None)})
@@ -748,6 +769,8 @@ def loop_rule(P, st, fr, it):
         for k, cond in clauses(done).items():
             P.assume(P.truthy(cond), fact=True)
         fr.locals[tname] = key
+        if multi is not None:   # zipseqs
+            zipseqs.bind(P, fr, multi, others, done)
         if items_map is not None:   # absnodes
             from . import absnodes
             fr.locals[vname] = absnodes.wrap_value(items_map, items_map.value(key.term))
@@ -772,10 +795,18 @@ def loop_rule(P, st, fr, it):
         doneS = S.length
     else:
         doneS = S
+    if late_types and is_seq:   # zipseqs: bound iff the body ran at least once
+        ran = simp(S.length >= 1)
+        if ran is True or (ran is not False and P.branch(ran, f'{tag}-ran')):
+            for n, t in late_types.items():
+                fr.locals[n] = P.fresh(ex.types.parse_str(t, info.module.name, info.cls), P.fresh_name(f'{n}@{tag}'))
     for k, cond in clauses(doneS).items():
         P.assume(P.truthy(cond), fact=True)
     if items_map is not None:   # absnodes
         fr.locals.pop(vname, None)
+    if multi is not None:   # zipseqs: the other targets are unbound after the loop (conservative, like the first)
+        for o in others:
+            fr.locals.pop(o, None)
     if not was_bound:
         fr.locals.pop(tname, None)
     else:
@@ -826,6 +857,8 @@ def concretize_entry(cz, typ, name):
         af = z3.Function(name + '#at', z3.IntSort(), s)
         n = m.eval(z3.Int(name + '#len'), model_completion=True).as_long()
         n = max(0, min(n, 8))
+        if len(typ) > 2:   # zipseqs
+            return {'$kseq': typ[1], 'pairs': True, 'items': [str(m.eval(af(i), model_completion=True)) for i in range(n)]}
         return {'$kseq': typ[1], 'items': [str(m.eval(af(i), model_completion=True)) for i in range(n)]}
     raise InterpError(f'concretize_entry {typ}')
 
